@@ -28,3 +28,16 @@ def strip(s):
 def is_sorted(L):
     L = list(L)
     return all([L[i] <= L[i + 1] for i in range(len(L) - 1)])
+
+
+def first_index(L, p):
+    """index of the first element satisfying p, or -1"""
+    for i, e in enumerate(L):
+        if p(e):
+            return i
+    return -1
+
+
+def remove_at(L, i):
+    L = list(L)
+    return L[:i] + L[i + 1:]
